@@ -314,6 +314,8 @@ def run_search(inst, which, variant=None):
     data, par, ids = build_objects(inst, variant)
     box['ids'], box['par'] = ids, par
     mmo = tbrmatchedmarkets.TBRMatchedMarkets(data, par)
+    if inst.get('decoy'):
+      interfere(mmo)
     _verif_trace.set_sink(lambda e, f: events.append((e, f)))
     try:
       return mmo.exhaustive_search() if which == 'exh' else mmo.greedy_search()
@@ -327,6 +329,33 @@ def run_search(inst, which, variant=None):
   if not variant.get('no_events'):
     inst['events_' + which] = project_events(events, box.get('ids'))
   return out
+
+
+_DECOY = {}
+
+
+def interfere(mmo):
+  """Between construction and search of the object under test, another, unrelated searcher is built and used.
+
+  Objects share no data; a library whose answers change because of it keeps state outside its objects."""
+  from matched_markets.methodology import tbrmatchedmarkets
+  try:
+    mmo.count_max_designs()
+  except Exception:  # pylint: disable=broad-except
+    pass
+  if 'inst' not in _DECOY:
+    rng = random.Random(4242)
+    d = gen_instance(rng, 999999, 'random', nmax_geos=4)
+    d.update(n_dates=d['n_dates'], default_elig=True, tr=(0, 0), cr=(0, 0), gtol=(0, 0), vtol=(0, 0), share=(0, 0, 0, 0),
+             nmax=0, budget=None, want_budget=False)
+    d['par']['iroas'] = 1.0
+    d['par']['n_designs'] = 3
+    _DECOY['inst'] = d
+  data, par, _ = build_objects(_DECOY['inst'], {})
+  dm = tbrmatchedmarkets.TBRMatchedMarkets(data, par)
+  dm.count_max_designs()
+  dm.exhaustive_search()
+  dm.greedy_search()
 
 
 def project_events(events, ids):
@@ -558,6 +587,7 @@ def make_instances(seed, owner, count, nmax_geos=6):
       inst['share'] = (0, 0, 0, 0)
       inst['want_budget'] = False
     inst['perturb_after'] = rng.random() < 0.5
+    inst['decoy'] = rng.random() < 0.25
     insts.append(inst)
     if owner in ('C01', 'C03', 'C04') and inst['n'] >= 3 and inst['n'] <= 5 and rng.random() < 0.3:
       inst['shared_mode'] = rng.choice(['interleaved', 'sequential'])
@@ -585,7 +615,7 @@ def public(inst):
           'gtol': inst['gtol'], 'vtol': inst['vtol'], 'share': inst['share'], 'nmax': inst['nmax'],
           'budget': inst['budget'], 'want_budget': False, 'budget_mode': inst['budget_mode'],
           'ids_kind': inst['ids_kind'], 'extra_elig_row': inst['extra_elig_row'], 'shuffle_seed': inst['shuffle_seed'],
-          'perturb_after': bool(inst.get('perturb_after')), 'shared_mode': inst.get('shared_mode'),
+          'perturb_after': bool(inst.get('perturb_after')), 'decoy': bool(inst.get('decoy')), 'shared_mode': inst.get('shared_mode'),
           'is_partner': bool(inst.get('is_partner')),
           'partner': public(inst['partner']) if inst.get('partner') is not None else None}
 
